@@ -39,7 +39,16 @@ def one(d):
         return sid, "worktree failed"
     try:
         if sh("git -C %s apply %s/patch.diff" % (wt, d)).returncode != 0:
-            return sid, "PATCH NO LONGER APPLIES"
+            # /repo moved on (fix: commits): try a 3-way merge, keep the rebased patch and re-confirm the demo
+            if sh("git -C %s apply --3way %s/patch.diff" % (wt, d)).returncode != 0:
+                return sid, "PATCH NO LONGER APPLIES"
+            sh("git -C %s reset -q" % wt)
+            clean = sh("PYTHONPATH=/repo/src /venv/bin/python %s/demo.py" % d).returncode
+            mut = sh("PYTHONPATH=%s/src /venv/bin/python %s/demo.py" % (wt, d)).returncode
+            if clean != 0 or mut == 0:
+                return sid, "REBASED PATCH: demo no longer discriminates (clean rc %d, changed rc %d)" % (clean, mut)
+            open(os.path.join(d, "patch.diff"), "w").write(sh("git -C %s diff -- src" % wt).stdout)
+            m["rebased_onto"] = sh("git -C /repo rev-parse --short HEAD").stdout.strip()
         caught = {}
         for c in checks:
             o = sh("cd /verif && VERIF_REPO=%s VERIF_DRIFT_PASSES=%s ./check %s" % (wt, os.environ.get("VERIF_DRIFT_PASSES", "3"), c))
